@@ -536,7 +536,9 @@ class SymReal(SymNum):
     __slots__ = ()
 
     def __hash__(self):
-        raise ShimGap('hash of a symbolic real')
+        # every symbolic real lands in the same bucket; dict / set lookups then compare with
+        # ==, which forks through the engine: the lookup finds a key iff it can be equal
+        return 0
 
     def __float__(self):
         raise ShimGap('float() of a symbolic real (rebind float in the module)')
